@@ -66,7 +66,7 @@ func Resolve(s *spec.Spec, env *Env) (*spec.Spec, *Env) {
 					return nil, env
 				}
 				sc := env.Ext[s.Namespace]
-				env = (&Env{Ext: nil}).ScopeEnv(sc)
+				env = (&Env{Ext: env.Ext}).ScopeEnv(sc) // a namespace name denotes the same external scope everywhere
 				s = sc.ObjectByID(s.RefID)
 				if s == nil {
 					return nil, env
@@ -485,6 +485,30 @@ func isValueObjectMember(p *spec.Prop, env *Env) (*spec.Spec, *Env, bool) {
 	return o, oenv, true
 }
 
+// reachesByValue tells if target can be reached from the object through object members that are there whenever the
+// object is: by-value members and members with a declared default.
+func reachesByValue(from *spec.Spec, env *Env, target *spec.Spec, seen map[*spec.Spec]bool) bool {
+	if from == target {
+		return true
+	}
+	if seen[from] {
+		return false
+	}
+	seen[from] = true
+	for i := range from.Props {
+		p := &from.Props[i]
+		sub, senv, ok := isValueObjectMember(p, env)
+		if !ok && p.Default != nil && (p.Type.Kind == spec.KObject || p.Type.Kind == spec.KRef) {
+			sub, senv = Resolve(p.Type, env)
+			ok = sub != nil
+		}
+		if ok && reachesByValue(sub, senv, target, seen) {
+			return true
+		}
+	}
+	return false
+}
+
 // SubDefaults computes what an absent by-value object member is materialised from: the defaults of its
 // properties, recursively through by-value object members (each object at most once along a path, so that
 // self-referential graphs give a finite value). nil when there is nothing to materialise.
@@ -520,7 +544,8 @@ func MergeSubDefaults(own map[string]any, o *spec.Spec, env *Env, visiting map[*
 	for i := range o.Props {
 		p := &o.Props[i]
 		sub, senv, ok := isValueObjectMember(p, env)
-		if !ok || visiting[sub] {
+		if !ok || visiting[sub] || reachesByValue(sub, senv, o, map[*spec.Spec]bool{}) {
+			// a member that leads back to its owner stays absent: completing it would never end
 			continue
 		}
 		existing, has := data[p.Name]
@@ -580,7 +605,7 @@ func convertObject(o *spec.Spec, env *Env, raw any, depth int) (any, Verdict) {
 		// struct-mapped parents: an absent by-value object member is completed / materialised from the defaults
 		// of its properties (documented by TestObjectNestedDefaults)
 		if o.Struct != "" {
-			if sub, senv, ok := isValueObjectMember(p, env); ok {
+			if sub, senv, ok := isValueObjectMember(p, env); ok && !reachesByValue(sub, senv, o, map[*spec.Spec]bool{}) {
 				if hasDefault {
 					if dm, isMap := d.(map[string]any); isMap {
 						supplied[p.Name] = MergeSubDefaults(dm, sub, senv, map[*spec.Spec]bool{})
@@ -1217,7 +1242,13 @@ func toNative(s *spec.Spec, env *Env, mv any) reflect.Value {
 			if (s.Kind == spec.KOneOfI && d == any(s.Members[j].KeyI)) || (s.Kind == spec.KOneOfS && d == any(s.Members[j].KeyS)) {
 				o, oenv := Resolve(s.Members[j].Type, env)
 				if o.Struct == "" {
-					return objectNative(o, oenv, m) // keeps the discriminator entry
+					out := objectNative(o, oenv, m) // keeps the discriminator entry
+					if out.Kind() == reflect.Map && d != nil {
+						// the discriminator entry holds the one-of's key type even when the member declares a
+						// property of a named type for it
+						out.SetMapIndex(reflect.ValueOf(s.Discriminator), reflect.ValueOf(d))
+					}
+					return out
 				}
 				rest := map[string]any{}
 				for k, v := range m {
